@@ -70,7 +70,12 @@ class Ctx:
 
     def violation(self, rule, key, where, msg, data=None):
         """key: stable identity (no line numbers); where: (file, line, fn)"""
-        self.violations.append({"rule": rule, "key": "%s|%s" % (rule, key), "file": where[0], "line": where[1],
+        k = "%s|%s" % (rule, key)
+        for v in self.violations:
+            if v["key"] == k:
+                v["occurrences"] = v.get("occurrences", 1) + 1
+                return
+        self.violations.append({"rule": rule, "key": k, "file": where[0], "line": where[1],
                                 "fn": where[2], "msg": msg, "data": data})
 
     def is_reviewed(self, rule, key):
